@@ -61,7 +61,8 @@ def hosvd(  # noqa: PLR0912,PLR0913,PLR0915
     if ranks is None:
         ranks = np.zeros((d,), dtype=int)
     else:
-        ranks = parse_one_d(ranks)
+        # Copy: chosen ranks are stored below and must not leak into the caller's array
+        ranks = parse_one_d(ranks).copy()
 
     if len(ranks) != d:
         raise ValueError(
@@ -113,19 +114,18 @@ def hosvd(  # noqa: PLR0912,PLR0913,PLR0915
         if ranks[k] == 0:
             eigsum = np.cumsum(eigvec[::-1])
             eigsum = eigsum[::-1]
-            ranks[k] = np.where(eigsum > eigsumthresh)[0][-1]
+            ranks[k] = np.where(eigsum > eigsumthresh)[0][-1] + 1
 
             if verbosity > 5:
                 print("Reverse cumulative sum of evals of Gram matrix:")
                 for i, a_sum in enumerate(eigsum):
                     print_msg = f"{i: d}: {a_sum: 6.4f}"
-                    if i == ranks[k]:
+                    if i == ranks[k] - 1:
                         print_msg += " <-- Cutoff"
                     print(print_msg)
 
         # Extract factor matrix b picking leading eigenvectors of V
-        # NOTE: Plus 1 in pi slice for inclusive range to match MATLAB
-        factor_matrices[k] = V[:, pi[0 : ranks[k] + 1]]
+        factor_matrices[k] = V[:, pi[0 : ranks[k]]]
 
         # Shrink!
         if sequential:
